@@ -4,11 +4,20 @@ from bounded import def_drv
 
 
 def run(tier, seed):
-    res = PropertyResult('C20', 'exploration',
-                         'Bounded round-trip contract with a spec-side DEF printer (the LALR parser is outside the VC generator): for generated designs every extracted section '
+    res = PropertyResult('C20', 'other',
+                         'Tier P (unbounded, one function): DefWire.wire_points is executed symbolically on a point list of any length (locations with explicit or wildcard coordinates, with or '
+                         'without extension values, via entries in between) and proved to list exactly the locations, in order, with every wildcard replaced by the coordinate in force (ghost '
+                         'recurrences RX/RY, position = number of locations before), [] for fewer than two locations. Tier B: bounded round-trip contract with a spec-side DEF printer (the LALR parser is outside the VC generator): for generated designs every extracted section '
                          '(units, die area, rows, tracks, via definitions, components, pins, net connectivity) equals the ghost design, and DefNet.wires / DefNet.vias give the '
                          'per-layer wires with wildcards resolved and the per-type vias with arrays expanded for special and regular nets.')
+    try:
+        from contracts import def_c
+        from pyvc.verify import verify
+        res.report = verify(def_c.targets(), timeout_s=20 if tier == 'quick' else 120)
+    except ImportError:
+        res.report = None
     res.bounded = [def_drv.part(tier, seed)]
-    res.assumptions = ['bounded over generated DEF files', 'ROUTED, FIXED and COVER wiring are all part of a net\'s geometry listing; an unrouted net has empty listings']
-    res.trusted_base = ['bounded/def_drv.py']
+    res.assumptions = ['bounded over generated DEF files; the via-array expansion (DefWire.vias: nested comprehension over symbolic ranges), the per-net aggregation and everything behind the '
+                       'lark grammar are bounded only', 'points[0] of a wire is an explicit location (grammar); CNTL monotone (induction over its recurrence) assumed', 'ROUTED, FIXED and COVER wiring are all part of a net\'s geometry listing; an unrouted net has empty listings']
+    res.trusted_base = ['pyvc', 'z3 5.1.0', 'bounded/def_drv.py']
     return res
